@@ -8,6 +8,8 @@ import (
 	"flag"
 	"fmt"
 	"hash/fnv"
+	"io"
+	"log"
 	"os"
 	"runtime/debug"
 	"sort"
@@ -37,6 +39,7 @@ type H struct {
 	Shard    int
 	NShards  int
 	Seed     int64
+	NoSleep  bool
 	sched    []schedScenario
 	seq      []seqScenario
 	order    []string
@@ -73,6 +76,7 @@ type ScenarioReport struct {
 	MaxDepth       int              `json:"max_depth,omitempty"`
 	MaxThreads     int              `json:"max_threads,omitempty"`
 	TimersFired    int64            `json:"timers_fired,omitempty"`
+	SleepBlocked   int64            `json:"sleep_blocked,omitempty"`
 	Violations     []*Finding       `json:"violations,omitempty"`
 	ViolationCount map[string]int64 `json:"violation_count,omitempty"`
 	Samples        []any            `json:"samples,omitempty"`
@@ -114,16 +118,19 @@ func (h *H) Run() {
 	replay := flag.String("replay", "", "replay file")
 	seed := flag.Int64("seed", 0, "seed (only permutes enumeration order where used)")
 	list := flag.Bool("list", false, "list scenarios")
+	nosleep := flag.Bool("nosleep", false, "unbounded searches without sleep-set reduction (cross-check)")
 	scen := flag.String("scen", "0/1", "i/n: run only scenarios with index%n==i")
 	flag.Parse()
 	h.Tier = *tier
 	h.Seed = *seed
+	h.NoSleep = *nosleep
 	fmt.Sscanf(*shard, "%d/%d", &h.Shard, &h.NShards)
 	if h.NShards <= 0 {
 		h.NShards = 1
 	}
 	h.only = *only
 	debug.SetGCPercent(400)
+	log.SetOutput(io.Discard) // resource.timeoutAlarm logs from abandoned executions
 	if *list {
 		for _, o := range h.order {
 			fmt.Println(o)
@@ -200,14 +207,14 @@ func (h *H) runSched(sc schedScenario, dl time.Time) *ScenarioReport {
 	t0 := time.Now()
 	bounds := []int{}
 	if target < 0 {
-		bounds = []int{0, 1, -1}
+		bounds = []int{-1}
 	} else {
 		for b := 0; b <= target; b++ {
 			bounds = append(bounds, b)
 		}
 	}
 	for _, b := range bounds {
-		st := verifrt.Explore(verifrt.Config{Name: sc.name, Bound: b, Shard: h.Shard, NShards: h.NShards, Deadline: dl}, sc.body, sc.oracle)
+		st := verifrt.Explore(verifrt.Config{Name: sc.name, Bound: b, Shard: h.Shard, NShards: h.NShards, Deadline: dl, Sleep: b < 0 && !h.NoSleep}, sc.body, sc.oracle)
 		if !st.Complete {
 			r.Notes = append(r.Notes, fmt.Sprintf("bound %d stopped by the time budget after %d executions (no violation among them unless listed)", b, st.Executions))
 			mergeViol(r, st)
@@ -217,6 +224,7 @@ func (h *H) runSched(sc schedScenario, dl time.Time) *ScenarioReport {
 		r.Executions, r.States, r.Transitions = st.Executions, st.States, st.Transitions
 		r.Outcomes = st.Outcomes
 		r.MaxDepth, r.MaxThreads, r.TimersFired = st.MaxDepth, st.MaxThreads, st.TimersFired
+		r.SleepBlocked = st.SleepBlocked
 		if len(st.Sample) > 0 {
 			r.Samples = []any{map[string]any{"scenario": sc.name, "bound": b, "schedule": st.Sample}}
 		}
